@@ -638,7 +638,7 @@ fn random_conversation(ctx: &Ctx, rng: &mut Rng, invariants_mode: bool, rep: &mu
     let pick = Box::new(move |_d: usize, _p: &'static str| if pr.chance(4, 5) { *pr.pick(&good_for_pick) } else { pr.below(N_SYMBOLS as u64) as u16 });
     let _ = ctx;
     // half of the random conversations are held with a Sign object that has already made one to three random calls
-    let flavour = rng.below(8) as u8;
+    let flavour = rng.below(u64::from(crate::doubles::N_BUS_ERROR_FLAVOURS)) as u8;
     rep.seen("bus_error_flavours", u64::from(flavour));
     let mut sess = Session::new(own, foreign, ty).with_error_flavour(flavour);
     if rng.chance(1, 2) {
@@ -667,12 +667,14 @@ pub fn run(ctx: &Ctx, invariants_mode: bool) -> Outcome {
             Setup { ty: 2, own: 0x80, foreign: 0x81, flavour: 2 },
             Setup { ty: 3, own: 0, foreign: 1, flavour: 7 },
             Setup { ty: 8, own: 0x80, foreign: 0x0000, flavour: 6 },
+            Setup { ty: 5, own: 3, foreign: 0x0103, flavour: 8 },
+            Setup { ty: 2, own: 0xFFFF, foreign: 0, flavour: 9 },
         ]
     } else {
         let mut v = vec![];
         for ty in 0..TYPES.len() {
             for (i, own) in [0u16, 3, 0x80, 0xFFFF].into_iter().enumerate() {
-                v.push(Setup { ty, own, foreign: if (ty + i) % 2 == 0 { own ^ 1 } else { own ^ 0x8000 }, flavour: ((ty + i) % 8) as u8 });
+                v.push(Setup { ty, own, foreign: if (ty + i) % 2 == 0 { own ^ 1 } else { own ^ 0x8000 }, flavour: ((ty * 4 + i) % usize::from(crate::doubles::N_BUS_ERROR_FLAVOURS)) as u8 });
             }
         }
         v
@@ -748,7 +750,7 @@ pub fn run(ctx: &Ctx, invariants_mode: bool) -> Outcome {
     let mut floors = vec![
         floor("every DFS subtree enumerated to its end", report.get("dfs_subtrees_completed") == nj as u64, report.get("dfs_subtrees_completed")),
         floor("every canned earlier call performed, then every operation enumerated on the same Sign object", report.set_len("preludes_performed") >= PRELUDES.len() as u64 && report.get("conversations_with_a_reused_sign_object") > 100_000, format!("{} preludes, {} conversations", report.set_len("preludes_performed"), report.get("conversations_with_a_reused_sign_object"))),
-        floor("bus errors of every kind (custom, io::Error Interrupted / TimedOut / WouldBlock, wrapped io::Error, FrameError around an io::Error)", report.set_len("bus_error_flavours") == 8, report.set_len("bus_error_flavours")),
+        floor("bus errors of every kind (custom, io::Error Interrupted / TimedOut / WouldBlock, wrapped io::Error, FrameError around an io::Error, a relayed SignError of either variant)", report.set_len("bus_error_flavours") == 10, report.set_len("bus_error_flavours")),
         floor("calls that fail exactly k times in a row on one Sign object, then ordinary calls (14 counts x 6 kinds of failure)", report.get("failing_streaks_followed_by_ordinary_calls") == 84, report.get("failing_streaks_followed_by_ordinary_calls")),
         floor("page flips that are polled 10 .. 70 000 times before they complete", report.get("long_polls_that_ended_in_success") == 28, report.get("long_polls_that_ended_in_success")),
         floor("one Sign object used for 70 000 calls", report.get("marathon_calls_on_one_sign_object") == 70_000, report.get("marathon_calls_on_one_sign_object")),
